@@ -4,7 +4,7 @@ import json, os, glob
 V = os.path.dirname(os.path.dirname(os.path.abspath(__file__)))
 LEVEL = {
  "C01": ("dispatch through the real NewRouter/Context/DefaultRouter/denco stack for every request target = concrete prefix ⧺ ≤2 (quick) / ≤4 (thorough) arbitrary path bytes × 5 method spellings × 4 API descriptions; reference dispatcher as oracle; every branch feasibility decided by SMT (or exact byte-domain evaluation), counterexamples replayed natively", "DESIGN.md §2 C01"),
- "C02": ("exhaustive symbolic execution of the real untyped stack (router → secure API → binder → handler → Respond) over 12 requirement structures × global/per-operation × authorizer × all per-scheme outcomes × request otherwise valid/invalid; declarative OR-of-ANDs oracle", "DESIGN.md §2 C02, §8.3"),
+ "C02": ("exhaustive symbolic execution of the real untyped stack (router → secure API → binder → handler → Respond) over 12 requirement structures × every evaluation order of the schemes inside each alternative × global/per-operation × authorizer × all per-scheme outcomes × request otherwise valid/invalid; declarative OR-of-ANDs oracle evaluated per evaluation order, with the rejections observed in the authenticators' call log accounted for", "DESIGN.md §2 C02, §8.3"),
  "C03": ("the real untyped binder (UntypedRequestBinder.Bind → untypedParamBinder → strconv/swag/reflect model) executed symbolically for every parameter text up to the per-kind length over the declaration lattice kinds × locations × required × default × allowEmptyValue × occurrences (quick: two slices of it, thorough: the product incl. 21-byte int64 texts), arrays in every collection format, and a four-parameter operation through the whole untyped stack; oracle = literal denotation [+-]?[0-9]+ with width range, swag's boolean true-set, reference split; declared validations are a nondeterministic stub", "DESIGN.md §2 C03"),
  "C04": ("client transport and server middleware built from one description and joined by an in-memory wire (RequestURI text → ParseRequestURI, header map, body bytes), executed symbolically end to end through Runtime.Submit → router → binder → handler → Respond → response adapter: every byte string of ≤2 (quick) / ≤3 (thorough) bytes as path value and ≤1 / ≤2 bytes as query, header, urlencoded-form and repeated query values; answer direction with symbolic header and body bytes", "DESIGN.md §2 C04"),
  "C05": ("bounded symbolic execution of the real denco Build/Lookup: every lookup path of ≤4 (quick) / ≤7 (thorough) arbitrary bytes against each catalogue table and build order; paths around every pattern of 6 route-set-like tables (pattern instance cut anywhere ⧺ arbitrary bytes); a generated table of 4 500 (7 500) records with >100 000 trie slots and symbolic tails; naive segment matcher as oracle", "DESIGN.md §2 C05, §8.3"),
